@@ -30,17 +30,18 @@ PROPS = {
 }
 CORE = "MC_Core.tla"
 CHAIN = "MC_Chain.tla"
-QUICK = [(CORE, "core_q"), (CORE, "policy_q"), (CORE, "forms_q"), (CORE, "redir_q"), (CORE, "roots_q"), (CORE, "tdep_q"), (CHAIN, "chain_q")]
-THOROUGH = QUICK + [(CORE, "core_t"), (CORE, "redir_t"), (CORE, "roots_t"), (CHAIN, "chain_t")]
+NPM = "MC_Npm.tla"
+QUICK = [(CORE, "core_q"), (CORE, "policy_q"), (CORE, "forms_q"), (CORE, "redir_q"), (CORE, "roots_q"), (CORE, "tdep_q"), (CHAIN, "chain_q"), (NPM, "npm_q")]
+THOROUGH = QUICK + [(CORE, "core_t"), (CORE, "redir_t"), (CORE, "roots_t"), (CHAIN, "chain_t"), (NPM, "npm_t")]
 def _q(*names):
-    return [(CHAIN if n.startswith("chain") else CORE, n) for n in names]
+    return [(CHAIN if n.startswith("chain") else NPM if n.startswith("npm") else CORE, n) for n in names]
 # quick tier: the instances that matter for the property; thorough tier: everything
 PROFILES = {
     "quick": {"default": QUICK,
-              "C02": _q("core_q", "policy_q", "tdep_q", "redir_q"),
+              "C02": _q("core_q", "policy_q", "tdep_q", "redir_q", "npm_q"),
               "C14": _q("core_q", "redir_q", "tdep_q", "chain_q"),
-              "C15": _q("core_q", "forms_q", "tdep_q", "redir_q"),
-              "C17": _q("core_q", "forms_q", "redir_q", "tdep_q"),
+              "C15": _q("core_q", "forms_q", "tdep_q", "redir_q", "npm_q"),
+              "C17": _q("core_q", "forms_q", "redir_q", "tdep_q", "npm_q"),
               "C18": _q("core_q", "redir_q", "roots_q", "tdep_q"),
               "C19": _q("core_q", "roots_q", "redir_q", "hist_q")},
     "thorough": {"default": THOROUGH, "C19": THOROUGH + [(CORE, "hist_q"), (CORE, "hist_t")]},
